@@ -17,7 +17,7 @@ Require Import Floats.SpecFloat.
 Require Import List ZArith Bool Reals.
 From Flocq Require Import Core BinarySingleNaN.
 From Dasp Require Import Base.Res Base.Float Sample.Rint Sample.ConvSpec Sample.SampleFmt Sample.SampleOps
-  Sample.SampleOpsProofs Sample.SampleOpsFloatProofs Frame.Frame Frame.FrameProofs Frame.FrameOps Frame.FrameOpsProofs
+  Sample.SampleOpsProofs Sample.SampleOpsFloatProofs Sample.SampleOpsWideLemmas Sample.SampleOpsWideProofs Frame.Frame Frame.FrameProofs Frame.FrameOps Frame.FrameOpsProofs
   Frame.FrameExamples Frame.ChanIter Frame.ChanIterProofs.
 From DaspGen Require Import FormatTable ConvGen SampleTable.
 Import ListNotations.
@@ -146,15 +146,62 @@ Theorem c03_mul_one_wide_refuted : forall m : mode,
 Proof. exact mul_amp_one_wide_refuted. Qed.
 Print Assumptions c03_mul_one_wide_refuted.
 
-(* PARTIAL for the wide formats: proved = still exact whenever the sample itself fits the mantissa (i32 / i64).
-   MISSING: the general bound |result - s| <= 2^(bits - prec) with the result in range, and the u32 / u64 forms;
-   these are only tested by the correspondence (the model is compared bit for bit with the crate on boundary and
-   random values, and the model's value is round-to-nearest of the amplitude followed by the saturating cast). *)
-Theorem c03_mul_one_wide_partial : forall (m : mode) (s : Z),
-  (in_range FI32 s -> Z.abs s <= 2 ^ 24 -> mul_amp m (SInt FI32) s identity32 = Ok s) /\
-  (in_range FI64 s -> Z.abs s <= 2 ^ 53 -> mul_amp m (SInt FI64) s identity64 = Ok s).
-Proof. intros m s. split; [exact (mul_one_i32_small m s) | exact (mul_one_i64_small m s)]. Qed.
-Print Assumptions c03_mul_one_wide_partial.
+(* The wide formats in full: i32, u32 (Float companion f32, prec 24) and i64, u64 (f64, prec 53) -- exactly the
+   formats with [prec_of fi < bits fi].  For EVERY in-range sample, in both build profiles:
+     - no panic and the result is in range.  This needs the SATURATING `as` cast: samples within half an ulp of
+       MAX are rounded to the float 1.0, outside the documented [-1,1) domain of the float -> int conversion
+       (so outside c02_to_int), 1.0 * 2^(bits-1) = 2^(bits-1) is MAX + 1 in the signed twin and is clamped to MAX;
+     - the value: min (MAX, equilibrium + rne (amplitude)), [rne fi] = round-to-nearest-even of the integer
+       amplitude to the companion's precision, as an integer (c03_mul_one_wide_rne pins it to Flocq's [round]);
+       one rounding only -- the division by 2^(bits-1), the product with 1.0 and the multiplication back are exact;
+     - |result - sample| <= 2^(bits - prec - 2) = half an ulp of the top binade: 64 for i32 / u32, 512 for i64 / u64
+       (a fortiori <= 2^(bits - prec), the bound of DESIGN section 6; lemma mul_amp_one_wide_loose); the bound is
+       attained (c03_mul_one_wide_attained), so "within that float precision" cannot be improved.
+   Non-vacuity: SampleOpsWideProofs.wide_hyps_sat. *)
+Theorem c03_mul_one_wide : forall (m : mode) (fi : fmt) (s : Z),
+  prec_of fi < bits fi -> in_range fi s ->
+  exists r, mul_amp m (SInt fi) s (identity_of (SInt fi)) = Ok r /\
+    r = Z.min (fmax fi) (equilibrium fi + rne fi (amp fi s)) /\
+    in_range fi r /\
+    Z.abs (r - s) <= 2 ^ (bits fi - prec_of fi - 2).
+Proof. exact mul_amp_one_wide. Qed.
+Print Assumptions c03_mul_one_wide.
+
+(* what [rne] is: Flocq's round-to-nearest-even operator of the companion format (binary32 / binary64) applied to
+   the integer; it is the identity on integers that fit the mantissa, monotone, and within 2^(bits - prec - 2) of
+   every amplitude of a wide format (-2^(bits-1) .. 2^(bits-1)) *)
+Theorem c03_mul_one_wide_rne : forall (fi : fmt) (a b : Z),
+  IZR (rne fi a) = round radix2 (FLT_exp (if src_float64 fi then 3 - 1024 - 53 else 3 - 128 - 24) (prec_of fi)) ZnearestE (IZR a) /\
+  (Z.abs a <= 2 ^ prec_of fi -> rne fi a = a) /\
+  (a <= b -> rne fi a <= rne fi b) /\
+  (prec_of fi < bits fi -> - half fi <= a <= half fi -> Z.abs (rne fi a - a) <= 2 ^ (bits fi - prec_of fi - 2)).
+Proof. exact rne_facts. Qed.
+Print Assumptions c03_mul_one_wide_rne.
+
+(* consequence: still EXACT whenever the amplitude itself fits the mantissa (u32 / u64: samples within 2^prec of the
+   equilibrium).  Replaces the former c03_mul_one_wide_partial (its two clauses are the instances FI32, FI64, where
+   amp fi s = s) and adds the unsigned forms. *)
+Theorem c03_mul_one_wide_small : forall (m : mode) (fi : fmt) (s : Z),
+  prec_of fi < bits fi -> in_range fi s -> Z.abs (amp fi s) <= 2 ^ prec_of fi ->
+  mul_amp m (SInt fi) s (identity_of (SInt fi)) = Ok s.
+Proof. exact mul_amp_one_wide_small. Qed.
+Print Assumptions c03_mul_one_wide_small.
+
+(* the bound is attained (ties, rounded to even: error exactly 64 / 512), and both ends behave as stated: MAX - 63
+   (MAX - 511) goes up to the float 1.0 and is clamped to MAX by the saturating cast, MIN + 63 goes down to MIN *)
+Theorem c03_mul_one_wide_attained : forall m : mode,
+  mul_amp m (SInt FI32) (2 ^ 30 + 64) identity32 = Ok (2 ^ 30) /\
+  mul_amp m (SInt FU32) (2 ^ 31 + 2 ^ 30 + 64) identity32 = Ok (2 ^ 31 + 2 ^ 30) /\
+  mul_amp m (SInt FI64) (2 ^ 62 + 512) identity64 = Ok (2 ^ 62) /\
+  mul_amp m (SInt FU64) (2 ^ 63 + 2 ^ 62 + 512) identity64 = Ok (2 ^ 63 + 2 ^ 62) /\
+  mul_amp m (SInt FI32) (fmax FI32 - 63) identity32 = Ok (fmax FI32) /\
+  mul_amp m (SInt FU32) (fmax FU32 - 63) identity32 = Ok (fmax FU32) /\
+  mul_amp m (SInt FI64) (fmax FI64 - 511) identity64 = Ok (fmax FI64) /\
+  mul_amp m (SInt FU64) (fmax FU64 - 511) identity64 = Ok (fmax FU64) /\
+  mul_amp m (SInt FI32) (fmin FI32 + 63) identity32 = Ok (fmin FI32) /\
+  mul_amp m (SInt FU64) 511 identity64 = Ok 0.
+Proof. exact mul_amp_one_wide_attained. Qed.
+Print Assumptions c03_mul_one_wide_attained.
 
 (* ---------------- frames: every channel count N, every frame of N channels ---------------- *)
 
